@@ -577,6 +577,13 @@ def emit_item(item, opts, drops):
                 if k >= len(loops):
                     raise ExtractError(f"lost anchor: loop #{k} of {item.name} in {s.path}")
                 add_before(sig[loops[k][1]], "\n" + text + "\n")
+            for k, name in (opts.get("loopvars") or {}).items():
+                # ghost iterator name of a `for` loop: `for x in EXPR` -> `for x in <name>: EXPR` (Verus syntax, ghost)
+                q = next((q for q in range(loops[k][0] + 1, loops[k][1]) if s.tt(sig[q]) == "in"), None)
+                if k >= len(loops) or s.tt(sig[loops[k][0]]) != "for" or q is None:
+                    raise ExtractError(f"lost anchor: for-loop #{k} of {item.name} in {s.path}")
+                add_after(sig[q], f" {name}:")
+                drops.append(f"for-loop #{k}: ghost iterator named `{name}`")
             if opts.get("closures"):
                 # //@closure k <ret>: <Type>  + clause text: the k-th closure `|p| body` becomes
                 # `|p| -> (<ret>: <Type>) <clauses> { body }` (Verus' only form for a closure with a contract; the
@@ -610,20 +617,6 @@ def emit_item(item, opts, drops):
                         break
                 if not ok:
                     lost_hints.append(anchor)
-                    continue
-                if where == "closure":
-                    # contract of an inline closure `|params| EXPR` (anchor = text starting at its first `|`):
-                    # re-bracketed as `|params| <text> { EXPR }` -- Verus's only form for a closure with an `ensures`;
-                    # params and EXPR stay verbatim (same kind of re-bracketing as for `const` items with a contract)
-                    ks = [k for k in sig if item.first <= k <= item.last]
-                    k0 = next(i for i, k in enumerate(ks) if s.toks[k][1] == pos)
-                    k1 = k0 if s.tt(ks[k0]) == "||" else next(i for i in range(k0 + 1, len(ks)) if s.tt(ks[i]) == "|")
-                    e = k1 + 1
-                    while e < len(ks) and s.tt(ks[e]) not in (",", ")", "]", "}", ";"):
-                        e = ks.index(s.match[ks[e]], e) + 1 if s.tt(ks[e]) in OPEN else e + 1
-                    add_after(ks[k1], " " + " ".join(text.split()) + " {")
-                    add_after(ks[e - 1], " }")
-                    drops.append("closure re-bracketed as `|params| -> (r: T) ensures .. { <body> }` (params and body verbatim)")
                     continue
                 if where == "before":
                     ls = s.text.rfind("\n", 0, pos) + 1
